@@ -58,11 +58,13 @@ Monophonic == LET ls == Listing IN
 HeaderPtrs == SelectSeq(DfsOrder, LAMBDA q : At(q).cell.k = "hdr")
 SpineIds == LET hp == HeaderPtrs IN [j \in 1..Len(hp) |-> hp[j][2] - 1]
 \* spine_types(doc, headers): the header line of the projection on those types
+\* (the FIRST line of the export that keeps only the headers of the selected types: for a document with one header line that is the
+\*  selected cells of that line; when the selected types only appear in a later section, or in the line that names an added spine, it is
+\*  that later line)
 SpineTypes(allTypes, types) ==
-  LET h == HeaderStageIdx IN
-  IF h = 0 THEN <<>>
-  ELSE LET hs == SelectSeq(stages[h], LAMBDA n : n.cell.t \in (IF allTypes THEN KnownHeaders ELSE types))
-       IN [i \in 1..Len(hs) |-> hs[i].cell.t]
+  LET o == [DefaultOpts EXCEPT !.types = (IF allTypes THEN KnownHeaders ELSE types), !.cats = {"HEADER"}]
+      g == ExportGrid(o)
+  IN IF g = <<>> THEN <<>> ELSE g[1]
 
 (* ------------- small document queries (no listed property names them) ------------- *)
 \* get_spine_count / get_header_stage: the nodes of the LAST header line; get_leaves: the nodes of the last stage;
